@@ -4,6 +4,7 @@
 
 #include "common.h"
 #include "fiber_event.h"
+#include "fiber_io.h"
 #include "fiber_manager.h"
 
 const char* const H_NAME = "c09_sleep";
@@ -42,6 +43,7 @@ static NS void g_ticker_done(int who) {
   sim_progress();
 }
 static NS void g_busy_step(void) { sim_progress(); }
+static NS void g_thread_locked(int on) { simk_thread_locked(on); }
 
 static void do_sleep(int via, uint64_t us) {
   switch (via) {
@@ -140,6 +142,18 @@ static void* fib(void* p) {
       g_busy_step();
       RS0(fiber_yield);
     }
+  } else if (spec[who].role == 3) {
+    /* a fiber that locks its kernel thread for a plain blocking call (here: a real sleep). Only this thread may
+     * block; sleeps issued on other kernel threads meanwhile still have to go through the fiber runtime */
+    for (int k = 0; k < spec[who].reps; k++) {
+      fiber_io_lock_thread();
+      g_thread_locked(1);
+      usleep((useconds_t)spec[who].compute_us);
+      g_thread_locked(0);
+      fiber_io_unlock_thread();
+      g_busy_step();
+      RS0(fiber_yield);
+    }
   } else {
     for (int k = 0; k < spec[who].reps; k++) RS0(fiber_yield);
     g_ticker_done(who);
@@ -219,6 +233,7 @@ void h_run(void) {
     int r = wl_pick(10);
     spec[i].role = r < 6 ? 0 : (r < 8 ? (busy_scenario ? 1 : 2) : 2);
     if (i == 0) spec[i].role = 0;
+    if (spec[i].role == 1 && wl_pct(25)) spec[i].role = 3; /* busy through a real sleep on a locked thread */
     if (spec[i].role == 0) {
       n_sleepers++;
       spec[i].nsleeps = wl_int(1, 3);
@@ -231,11 +246,11 @@ void h_run(void) {
         if (spec[i].us[k] > longest) longest = spec[i].us[k];
         dk += snprintf(d + dk, sizeof d - dk, "s%d:%luus/%d ", i, (unsigned long)spec[i].us[k], spec[i].via[k]);
       }
-    } else if (spec[i].role == 1) {
+    } else if (spec[i].role == 1 || spec[i].role == 3) {
       n_busy++;
       spec[i].compute_us = 1000 * wl_int(1, 80);
       spec[i].reps = wl_int(1, 3);
-      dk += snprintf(d + dk, sizeof d - dk, "busy%d:%dus*%d ", i, spec[i].compute_us, spec[i].reps);
+      dk += snprintf(d + dk, sizeof d - dk, "%s%d:%dus*%d ", spec[i].role == 1 ? "busy" : "locked-thread-sleep", i, spec[i].compute_us, spec[i].reps);
     } else {
       spec[i].reps = wl_int(1, 20);
       dk += snprintf(d + dk, sizeof d - dk, "tick%d:%d ", i, spec[i].reps);
